@@ -55,79 +55,122 @@ func multiset(qf qframe.QFrame) string {
 	return fmt.Sprintf("%q %d\n%s", tab.Names(), qf.Len(), strings.Join(rows, "\n"))
 }
 
+// family is one instance of the frames and shared values a case works on. Every case builds TWO
+// identical families from the same drawn data: the concurrent phase runs on the first, the solo
+// reference runs on the second, so that anything an implementation initialises lazily on first use
+// (caches on columns, contexts, groupers) is still cold when the goroutines start.
+type family struct {
+	members []qframe.QFrame
+	tabs    []hx.Table
+	grouper qframe.Grouper
+	ctx     *eval.Context
+	clauses []qframe.FilterClause
+	orders  []qframe.Order
+}
+
+var c11Names = []string{"root", "slice", "sorted", "filtered", "copied", "sorted+select"}
+
 func TestC11(t *testing.T) {
 	rapid.Check(t, func(t *rapid.T) {
 		base := withIDLast(hx.GenTable(t, hx.TableOpt{PerKind: 2, SharedEnum: true, MinEnum: 2, Rows: hx.RowsUpTo(300)}))
-		root := hx.Build(base)
-		if root.Err != nil {
-			t.Fatalf("build: %v", root.Err)
-		}
 		n := base.N()
 		a := rapid.IntRange(0, n).Draw(t, "slicea")
 		b := rapid.IntRange(a, n).Draw(t, "sliceb")
-		members := []qframe.QFrame{
-			root,
-			root.Slice(a, b),
-			root.Sort(qframe.Order{Column: "i1"}, qframe.Order{Column: "id", Reverse: true}),
-			root.Filter(qframe.Filter{Column: "b1", Comparator: "=", Arg: true}),
-			root.Copy("s3", "s1"),
-		}
-		members = append(members, members[2].Select("id", "s1", "e1", "i1", "f1"))
-		names := []string{"root", "slice", "sorted", "filtered", "copied", "sorted+select"}
-		tabs := make([]hx.Table, len(members))
-		for i, m := range members {
-			obs, err := hx.Observe(m)
-			if err != nil {
-				t.Fatalf("observe member %s: %v", names[i], err)
-			}
-			tabs[i] = hx.WithEnumDecl(obs, base)
-		}
-		// shared values
-		// the shared context: one with user functions registered for every type, or an untouched
-		// default context (whatever it sets up lazily happens inside the concurrent phase)
 		customCtx := rapid.Bool().Draw(t, "customctx")
-		ctx := eval.NewDefaultCtx()
-		if customCtx {
-			ctx = hx.NewCtx()
-		}
-		sharedClauses := make([]hx.Clause, 2)
-		sharedReal := make([]qframe.FilterClause, 2)
-		for i := range sharedClauses {
-			sharedClauses[i] = hx.GenClause(t, tabs[5], 2, hx.ClauseOpt{}) // over the columns every member has
-			sharedReal[i] = sharedClauses[i].Build(hx.KindMap(tabs[5]))
-		}
-		sharedOrders := hx.BuildOrders(append(genOrders(t, tabs[5], "id"), hx.Order{Col: "id"}))
 		gkey := rapid.SampledFrom([]string{"i1", "s1", "e1", "f1"}).Draw(t, "gkey")
-		sharedGrouper := members[rapid.IntRange(0, len(members)-1).Draw(t, "gmember")].GroupBy(groupby.Columns(gkey), groupby.Null(true))
+		gmember := rapid.IntRange(0, len(c11Names)-1).Draw(t, "gmember")
+		gnullShared := rapid.Bool().Draw(t, "gnullshared")
+		var sharedClauses []hx.Clause
+		var sharedOrders []hx.Order
+		var refTabs []hx.Table
+		mkFamily := func(first bool) family {
+			root := hx.Build(base)
+			if root.Err != nil {
+				t.Fatalf("build: %v", root.Err)
+			}
+			f := family{members: []qframe.QFrame{
+				root,
+				root.Slice(a, b),
+				root.Sort(qframe.Order{Column: "i1"}, qframe.Order{Column: "id", Reverse: true}),
+				root.Filter(qframe.Filter{Column: "b1", Comparator: "=", Arg: true}),
+				root.Copy("s3", "s1"),
+			}}
+			f.members = append(f.members, f.members[2].Select("id", "s1", "e1", "i1", "f1"))
+			if first {
+				// only the reference family is observed here; the other one stays untouched until the goroutines start
+				for i, m := range f.members {
+					obs, err := hx.Observe(m)
+					if err != nil {
+						t.Fatalf("observe member %s: %v", c11Names[i], err)
+					}
+					f.tabs = append(f.tabs, hx.WithEnumDecl(obs, base))
+				}
+				refTabs = f.tabs
+			} else {
+				f.tabs = refTabs
+			}
+			if first {
+				for i := 0; i < 2; i++ {
+					sharedClauses = append(sharedClauses, hx.GenClause(t, f.tabs[5], 2, hx.ClauseOpt{})) // over the columns every member has
+				}
+				sharedOrders = append(genOrders(t, f.tabs[5], "id"), hx.Order{Col: "id"})
+			}
+			for _, c := range sharedClauses {
+				f.clauses = append(f.clauses, c.Build(hx.KindMap(f.tabs[5])))
+			}
+			f.orders = hx.BuildOrders(sharedOrders)
+			f.ctx = eval.NewDefaultCtx()
+			if customCtx {
+				f.ctx = hx.NewCtx()
+			}
+			f.grouper = f.members[gmember].GroupBy(groupby.Columns(gkey), groupby.Null(gnullShared))
+			return f
+		}
+		famB := mkFamily(true)  // reference family: solo runs
+		famA := mkFamily(false) // concurrent runs
+		tabs := famB.tabs
 
 		nops := rapid.IntRange(2, 8).Draw(t, "nops")
-		ops := make([]concOp, nops)
-		for i := range ops {
-			mi := rapid.IntRange(0, len(members)-1).Draw(t, "member")
-			m, tab, mn := members[mi], tabs[mi], names[mi]
+		type opMaker struct {
+			desc    string
+			scratch bool
+			mk      func(f family) func() string
+		}
+		makers := make([]opMaker, nops)
+		for i := range makers {
+			mi := rapid.IntRange(0, len(c11Names)-1).Draw(t, "member")
+			tab, mn := tabs[mi], c11Names[mi]
 			switch rapid.IntRange(0, 13).Draw(t, "op") {
 			case 0:
 				k := rapid.IntRange(0, 1).Draw(t, "sharedclause")
-				ops[i] = concOp{desc: fmt.Sprintf("%s.Filter(shared clause %d: %s)", mn, k, sharedClauses[k].String()), run: func() string { return snapFrame(m.Filter(sharedReal[k])) }}
+				makers[i] = opMaker{desc: fmt.Sprintf("%s.Filter(shared clause %d: %s)", mn, k, sharedClauses[k].String()), mk: func(f family) func() string {
+					return func() string { return snapFrame(f.members[mi].Filter(f.clauses[k])) }
+				}}
 			case 1:
 				col := rapid.SampledFrom([]string{"s1", "e1"}).Draw(t, "likecol")
 				comp := rapid.SampledFrom([]string{"like", "ilike"}).Draw(t, "likecomp")
 				pat := rapid.SampledFrom([]string{"a%", "%b", "%a%", "A", "ab", "%Ä%", "[ab]%"}).Draw(t, "likepat")
-				ops[i] = concOp{desc: fmt.Sprintf("%s.Filter(%s %s %q)", mn, col, comp, pat), scratch: true, run: func() string {
-					return snapFrame(m.Filter(qframe.Filter{Column: col, Comparator: comp, Arg: pat}))
+				makers[i] = opMaker{desc: fmt.Sprintf("%s.Filter(%s %s %q)", mn, col, comp, pat), scratch: true, mk: func(f family) func() string {
+					return func() string {
+						return snapFrame(f.members[mi].Filter(qframe.Filter{Column: col, Comparator: comp, Arg: pat}))
+					}
 				}}
 			case 2:
-				ops[i] = concOp{desc: mn + ".Sort(shared orders)", scratch: true, run: func() string { return snapFrame(m.Sort(sharedOrders...)) }}
+				makers[i] = opMaker{desc: mn + ".Sort(shared orders)", scratch: true, mk: func(f family) func() string {
+					return func() string { return snapFrame(f.members[mi].Sort(f.orders...)) }
+				}}
 			case 3:
 				cols := []string{rapid.SampledFrom([]string{"i1", "s1", "e1", "f1"}).Draw(t, "dcol")}
 				gnull := rapid.Bool().Draw(t, "dnull")
-				ops[i] = concOp{desc: fmt.Sprintf("%s.Distinct(%q, null=%v)", mn, cols, gnull), scratch: true, run: func() string {
-					d := m.Distinct(groupby.Columns(cols...), groupby.Null(gnull))
-					if d.Err != nil {
-						return d.Err.Error()
+				makers[i] = opMaker{desc: fmt.Sprintf("%s.Distinct(%q, null=%v)", mn, cols, gnull), scratch: true, mk: func(f family) func() string {
+					return func() string {
+						d := f.members[mi].Distinct(groupby.Columns(cols...), groupby.Null(gnull))
+						if d.Err != nil {
+							return d.Err.Error()
+						}
+						// which representative is kept is unspecified: compare the keys only
+						return multiset(d.Select(cols...))
 					}
-					// which representative is kept is unspecified: compare the keys only
-					return multiset(d.Select(cols...))
 				}}
 			case 4:
 				key := rapid.SampledFrom([]string{"i1", "s1", "e1", "f1"}).Draw(t, "aggkey")
@@ -137,25 +180,31 @@ func TestC11(t *testing.T) {
 					real[j] = ag.Build(tab.MustCol(ag.Col).Kind)
 				}
 				gnull := rapid.Bool().Draw(t, "gnull")
-				ops[i] = concOp{desc: fmt.Sprintf("%s.GroupBy(%s, null=%v).Aggregate(%v)", mn, key, gnull, aggs), scratch: true, run: func() string {
-					return multiset(m.GroupBy(groupby.Columns(key), groupby.Null(gnull)).Aggregate(real...))
+				makers[i] = opMaker{desc: fmt.Sprintf("%s.GroupBy(%s, null=%v).Aggregate(%v)", mn, key, gnull, aggs), scratch: true, mk: func(f family) func() string {
+					return func() string {
+						return multiset(f.members[mi].GroupBy(groupby.Columns(key), groupby.Null(gnull)).Aggregate(real...))
+					}
 				}}
 			case 5:
-				ops[i] = concOp{desc: "sharedGrouper.Aggregate(count,sum i1)", scratch: true, run: func() string {
-					return multiset(sharedGrouper.Aggregate(qframe.Aggregation{Fn: "count", Column: "id", As: "n"}, qframe.Aggregation{Fn: "sum", Column: "i1", As: "sum"}))
+				makers[i] = opMaker{desc: "sharedGrouper.Aggregate(count,sum i1)", scratch: true, mk: func(f family) func() string {
+					return func() string {
+						return multiset(f.grouper.Aggregate(qframe.Aggregation{Fn: "count", Column: "id", As: "n"}, qframe.Aggregation{Fn: "sum", Column: "i1", As: "sum"}))
+					}
 				}}
 			case 6:
-				ops[i] = concOp{desc: "sharedGrouper.QFrames()", run: func() string {
-					fs, err := sharedGrouper.QFrames()
-					if err != nil {
-						return err.Error()
+				makers[i] = opMaker{desc: "sharedGrouper.QFrames()", mk: func(f family) func() string {
+					return func() string {
+						fs, err := f.grouper.QFrames()
+						if err != nil {
+							return err.Error()
+						}
+						ss := make([]string, len(fs))
+						for j, x := range fs {
+							ss[j] = snapFrame(x)
+						}
+						sort.Strings(ss)
+						return strings.Join(ss, "--")
 					}
-					ss := make([]string, len(fs))
-					for j, f := range fs {
-						ss[j] = snapFrame(f)
-					}
-					sort.Strings(ss)
-					return strings.Join(ss, "--")
 				}}
 			case 7:
 				ins := hx.GenInstrs(t, tab, 3)
@@ -167,44 +216,41 @@ func TestC11(t *testing.T) {
 					cur = x.Exec(cur, nil)
 					kinds = hx.KindMap(cur)
 				}
-				ops[i] = concOp{desc: mn + ".Apply(" + hx.InstrsString(ins) + ")", run: func() string { return snapFrame(m.Apply(real...)) }}
+				makers[i] = opMaker{desc: mn + ".Apply(" + hx.InstrsString(ins) + ")", mk: func(f family) func() string {
+					return func() string { return snapFrame(f.members[mi].Apply(real...)) }
+				}}
 			case 8:
 				want := rapid.SampledFrom([]hx.Kind{hx.KInt, hx.KFloat, hx.KBool, hx.KString}).Draw(t, "want")
 				e := hx.GenExprOfKind(t, tab, want, 2, customCtx)
-				real := e.Build()
-				ops[i] = concOp{desc: fmt.Sprintf("%s.Eval(n1, %s, shared ctx custom=%v)", mn, e.String(), customCtx), scratch: true, run: func() string {
-					return snapFrame(m.Eval("n1", real, eval.EvalContext(ctx)))
-				}, solo: func() string {
-					// the reference run uses a private context of the same kind, so that the first use
-					// of the shared one happens in the concurrent phase
-					private := eval.NewDefaultCtx()
-					if customCtx {
-						private = hx.NewCtx()
-					}
-					return snapFrame(m.Eval("n1", real, eval.EvalContext(private)))
+				makers[i] = opMaker{desc: fmt.Sprintf("%s.Eval(n1, %s, shared ctx custom=%v)", mn, e.String(), customCtx), scratch: true, mk: func(f family) func() string {
+					real := e.Build()
+					return func() string { return snapFrame(f.members[mi].Eval("n1", real, eval.EvalContext(f.ctx))) }
 				}}
 			case 9:
 				x := rapid.IntRange(0, tab.N()).Draw(t, "a")
 				y := rapid.IntRange(x, tab.N()).Draw(t, "b")
-				ops[i] = concOp{desc: fmt.Sprintf("%s.Slice(%d,%d).Select(id,s1).Copy(c,s1)", mn, x, y), run: func() string {
-					return snapFrame(m.Slice(x, y).Select("id", "s1").Copy("c", "s1"))
+				makers[i] = opMaker{desc: fmt.Sprintf("%s.Slice(%d,%d).Select(id,s1).Copy(c,s1)", mn, x, y), mk: func(f family) func() string {
+					return func() string { return snapFrame(f.members[mi].Slice(x, y).Select("id", "s1").Copy("c", "s1")) }
 				}}
 			case 10:
-				ops[i] = concOp{desc: mn + " typed views", run: func() string {
-					var sb strings.Builder
-					if v, err := m.StringView("s1"); err == nil {
-						sb.WriteString(snapView(v))
+				makers[i] = opMaker{desc: mn + " typed views", mk: func(f family) func() string {
+					return func() string {
+						m := f.members[mi]
+						var sb strings.Builder
+						if v, err := m.StringView("s1"); err == nil {
+							sb.WriteString(snapView(v))
+						}
+						if v, err := m.EnumView("e1"); err == nil {
+							sb.WriteString(snapView(v))
+						}
+						if v, err := m.IntView("id"); err == nil {
+							sb.WriteString(snapView(v))
+						}
+						if v, err := m.FloatView("f1"); err == nil {
+							sb.WriteString(snapView(v))
+						}
+						return sb.String()
 					}
-					if v, err := m.EnumView("e1"); err == nil {
-						sb.WriteString(snapView(v))
-					}
-					if v, err := m.IntView("id"); err == nil {
-						sb.WriteString(snapView(v))
-					}
-					if v, err := m.FloatView("f1"); err == nil {
-						sb.WriteString(snapView(v))
-					}
-					return sb.String()
 				}}
 			case 11:
 				// now and then into a writer that fails after a few bytes (error paths release/reuse buffers too)
@@ -212,29 +258,41 @@ func TestC11(t *testing.T) {
 				if rapid.IntRange(0, 2).Draw(t, "failingwriter") == 0 {
 					limit = rapid.IntRange(0, 40).Draw(t, "writelimit")
 				}
-				ops[i] = concOp{desc: fmt.Sprintf("%s ToCSV+ToJSON+String (writer limit %d)", mn, limit), run: func() string {
-					w1, w2 := &faults.FailWriter{Limit: limit}, &faults.FailWriter{Limit: limit}
-					e1 := m.ToCSV(w1)
-					e2 := m.ToJSON(w2)
-					return fmt.Sprintf("%v %v %s %s %s", e1 != nil, e2 != nil, w1.Accepted, w2.Accepted, m.String())
+				makers[i] = opMaker{desc: fmt.Sprintf("%s ToCSV+ToJSON+String (writer limit %d)", mn, limit), mk: func(f family) func() string {
+					return func() string {
+						m := f.members[mi]
+						w1, w2 := &faults.FailWriter{Limit: limit}, &faults.FailWriter{Limit: limit}
+						e1 := m.ToCSV(w1)
+						e2 := m.ToJSON(w2)
+						return fmt.Sprintf("%v %v %s %s %s", e1 != nil, e2 != nil, w1.Accepted, w2.Accepted, m.String())
+					}
 				}}
 			case 12:
-				oi := rapid.IntRange(0, len(members)-1).Draw(t, "other")
-				o := members[oi]
-				ops[i] = concOp{desc: fmt.Sprintf("%s.Equals(%s)", mn, names[oi]), run: func() string {
-					eq, why := m.Equals(o)
-					return fmt.Sprint(eq, why)
+				oi := rapid.IntRange(0, len(c11Names)-1).Draw(t, "other")
+				makers[i] = opMaker{desc: fmt.Sprintf("%s.Equals(%s)", mn, c11Names[oi]), mk: func(f family) func() string {
+					return func() string {
+						eq, why := f.members[mi].Equals(f.members[oi])
+						return fmt.Sprint(eq, why)
+					}
 				}}
 			default:
 				fn := rapid.IntRange(0, len(hx.PredFns)-1).Draw(t, "predfn")
-				ops[i] = concOp{desc: fmt.Sprintf("%s.Filter(i1 predicate fn %d)", mn, fn), run: func() string {
-					return snapFrame(m.Filter(qframe.Filter{Column: "i1", Comparator: hx.PredFns[fn].I1}))
+				makers[i] = opMaker{desc: fmt.Sprintf("%s.Filter(i1 predicate fn %d)", mn, fn), mk: func(f family) func() string {
+					return func() string {
+						return snapFrame(f.members[mi].Filter(qframe.Filter{Column: "i1", Comparator: hx.PredFns[fn].I1}))
+					}
 				}}
 			}
 		}
+		ops := make([]concOp, nops)
+		for i, mkr := range makers {
+			ops[i] = concOp{desc: mkr.desc, scratch: mkr.scratch, run: mkr.mk(famA), solo: mkr.mk(famB)}
+		}
+		members := famA.members
+		names := c11Names
 		var sb strings.Builder
 		sb.WriteString(base.String())
-		fmt.Fprintf(&sb, "slice(%d,%d) grouper on %s\n", a, b, gkey)
+		fmt.Fprintf(&sb, "slice(%d,%d) grouper on %s of %s (null=%v)\n", a, b, gkey, names[gmember], gnullShared)
 		for i, o := range ops {
 			fmt.Fprintf(&sb, "  op %d: %s\n", i, o.desc)
 		}
@@ -243,17 +301,13 @@ func TestC11(t *testing.T) {
 
 		solo := make([]string, nops)
 		for i, o := range ops {
-			ref := o.run
-			if o.solo != nil {
-				ref = o.solo
-			}
-			if perr := hx.Safely(func() { solo[i] = ref() }); perr != nil {
+			if perr := hx.Safely(func() { solo[i] = o.solo() }); perr != nil {
 				t.Skip("an operation panics on its own: not C11's business")
 			}
 		}
 		before := make([]string, len(members))
-		for i, m := range members {
-			before[i] = snapFrame(m)
+		for i := range members {
+			before[i] = snapFrame(famB.members[i]) // the twin: observing the first family here could warm lazy state
 		}
 		old := runtime.GOMAXPROCS(0)
 		defer runtime.GOMAXPROCS(old)
